@@ -15,6 +15,13 @@ fn main() {
         usage();
     }
     let cmd = args[1].as_str();
+    if cmd == "c20-first" {
+        // child process of the C20 check: the very first temp_file_name calls of a process, made concurrently
+        let threads: usize = args.get(2).and_then(|s| s.parse().ok()).unwrap_or(2);
+        let calls: usize = args.get(3).and_then(|s| s.parse().ok()).unwrap_or(1);
+        let part = args.get(4).cloned().unwrap_or_default();
+        std::process::exit(props::c20::first_calls_child(threads, calls, &part));
+    }
     let id = args[2].clone();
     let mut tier = Tier::Quick;
     let mut seed = 1u64;
